@@ -1,3 +1,4 @@
 pub mod merkle;
 pub mod ser;
 pub mod sha;
+pub mod sighash;
